@@ -85,6 +85,10 @@ class Resolver:
                 e = base
                 for p in proj:
                     if p["k"] == "field":
+                        # a field of a value built by an aggregate expression is that operand
+                        if e[0] == "agg" and isinstance(e[3], tuple) and p["i"] < len(e[3]) and (e[1] is None or not str(e[1]).endswith(("result::Result", "option::Option"))):
+                            e = e[3][p["i"]]
+                            continue
                         e = ("field", e, p.get("name") if p.get("name") is not None else str(p["i"]))
                     else:
                         e = ("field", e, "as " + str(p.get("name")))
